@@ -89,8 +89,9 @@ def inShape (shape : Ax → Int) (k : Ax → Int) : Bool := inAx shape k 0 && in
 /-- `np.allclose` default relative tolerance -/
 def rtolDefault : Rat := 1 / 100000
 
-/-- one entry of `np.allclose(a, b, atol)`: `|a - b| <= atol + rtol * |b|` -/
-def closeEntry (atol a b : Rat) : Bool := decide (rabs (a - b) ≤ atol + rtolDefault * rabs b)
+/-- one entry of `np.allclose(a, b, atol)` (`np.isclose`): `|a - b| <= atol + rtol * |b|`, or the two entries are identical
+(numpy's `| (x == y)` term: it only matters for a negative `atol`) -/
+def closeEntry (atol a b : Rat) : Bool := decide (rabs (a - b) ≤ atol + rtolDefault * rabs b) || decide (a = b)
 
 def closeV (atol : Rat) (a b : V3) : Bool := closeEntry atol a.x b.x && closeEntry atol a.y b.y && closeEntry atol a.z b.z
 
